@@ -123,6 +123,55 @@ R.contract(
 )
 
 
+# ------------------------------------------------------------------------------------------------- parameters -> object schema handed to the generator
+PM = "schemathesis.specs.openapi.parameters:"
+HYP = "schemathesis.specs.openapi._hypothesis:"
+ParamP = lambda: Obj("spec:OpenAPIParameter", name=Str, is_required=Bool, schema=Opq("ParamSchema"))
+R.nominal_methods["spec:OpenAPIParameter"] = {"as_json_schema": lambda it, obj, a, k: obj.fields["schema"]}
+R.contract(
+    PM + "parameters_to_json_schema",
+    prop="C01",
+    args={"operation": Opq("Operation"), "parameters": ListOf(ParamP(), [0, 1, 2])},
+    requires=["all(parameters[i].name != parameters[j].name for i in range(len(parameters)) for j in range(i))  # parameter names are unique within one location (C08: effective parameters)"],
+    ensures={
+        # every value that is generated for the location conforms to every parameter's own schema: one property per parameter carrying ITS schema, required exactly as declared, nothing else allowed
+        "one_property_per_parameter_with_its_own_schema": "length(result['properties']) == length(parameters) and all(p.name in result['properties'] and result['properties'][p.name] is p.schema for p in parameters)",
+        "required_exactly_as_declared": "all(iff(p.name in result['required'], p.is_required) for p in parameters) and all(any(n == p.name for p in parameters) for n in result['required'])",
+        "closed_object": "result['additionalProperties'] is False and result['type'] == 'object'",
+    },
+    bounded_note="up to 2 parameters in the location",
+)
+PropS = DictOf(optional={"type": Choice("string", "integer"), "minLength": IntRange(0, None)})
+R.contract(
+    HYP + "get_schema_for_location",
+    prop="C01",
+    args={"operation": Obj("spec:OpForLocation", schema=Obj("spec:SchemaPrep")), "location": Choice("path", "query", "header", "cookie"), "parameters": Const(())},  # (what parameters_to_json_schema makes of them: its contract / `_pjs_returns`)
+    ghost={"base": None},
+    ensures={
+        # path parameters: every one is required and strings without a declared minLength are non-empty - the schema is only ever STRENGTHENED (every value valid for it is valid
+        # for the declared one); a declared minLength is kept as it is (a declared minLength 0 stays 0: emptiness is the is_valid_path filter's business)
+        "path_parameters_all_required_and_non_empty": "implies(location == 'path', length(result['required']) == length(result['properties']) and all(n in result['required'] for n in result['properties']) and "
+                                                      "all(implies(result['properties'][n].get('type') == 'string' and 'minLength' not in ghost('base')[n], result['properties'][n]['minLength'] == 1) for n in result['properties']))",
+        "declared_min_length_never_lowered": "all(implies('minLength' in ghost('base')[n], 'minLength' in result['properties'][n] and result['properties'][n]['minLength'] == ghost('base')[n]['minLength']) for n in ghost('base'))",
+        "other_locations_untouched": "implies(location != 'path', all(result['properties'][n] == ghost('base')[n] for n in ghost('base')))",
+        "no_property_added_or_removed": "length(result['properties']) == length(ghost('base')) and all(n in result['properties'] for n in ghost('base'))",
+    },
+    bounded_note="up to 2 parameters",
+)
+gsl_base = R.contracts[PM + "parameters_to_json_schema"]
+
+
+def _pjs_returns(it, env):
+    props = KeyedDict(Str, PropS, sizes=(0, 1, 2)).make(it, it.path.fresh("props"))
+    it.ghost["base"] = {k: dict(v) for k, v in props.items()}
+    req = [k for k in props if it.path.choose([(False, True), (True, True)], "required?")]
+    return {"properties": props, "additionalProperties": False, "type": "object", "required": req}
+
+
+gsl_base.returns = _pjs_returns
+gsl_base.call_ensures = {}
+R.nominal_methods["spec:SchemaPrep"] = {"prepare_schema": lambda it, obj, a, k: a[0]}
+
 # ------------------------------------------------------------------------------------------------- stand-ins
 def pattern_length_merge_is_sound(tier, seed):
     """Differential, exhaustive on a catalogue: after update_pattern_in_schema every string valid for the NEW schema (pattern under search semantics, remaining length
